@@ -185,6 +185,9 @@ type Session struct {
 	clNames   map[string]uint16
 	clPendReg map[uint16]string
 	clPendSub map[uint16]string
+	// eager broker (see step "eagerping"): PINGREQs answered from the link's write hook
+	eagerMu       sync.Mutex
+	eagerAnswered int
 }
 
 // clientLearn keeps the reactive client's name -> ID table (what it registered itself and got
@@ -458,6 +461,14 @@ func (s *Session) react(idx []int) bool {
 	for _, i := range idx {
 		e := s.tr.Events[i]
 		sn, mq := Reactions(s.auto, e)
+		if e.Dir == GB && e.MQ != nil && e.MQ.Type == mqttref.PINGREQ {
+			s.eagerMu.Lock()
+			if s.eagerAnswered > 0 {
+				s.eagerAnswered--
+				mq = nil // the eager broker has answered this one already
+			}
+			s.eagerMu.Unlock()
+		}
 		if e.Dir == GC && e.SN != nil && e.SN.Type == snref.REGISTER {
 			for k := range sn {
 				if sn[k].Type != snref.REGACK {
@@ -604,6 +615,28 @@ func (s *Session) Apply(i int, st Step) {
 		// D > 0: it still takes D more bytes (the rest of its socket buffer)
 		s.ev(Event{Dir: EV, What: fmt.Sprintf("MQSTALL room=%d", st.D)})
 		s.MQ.SetStalledAfter(true, int(st.D))
+	case "eagerping":
+		// From now on the broker answers a PINGREQ the moment the gateway writes it - from the link's
+		// write hook, while the writing goroutine is still inside the write (it then yields D times:
+		// a write is a system call) - instead of when the gateway has come to rest. D < 0: off.
+		if st.D < 0 {
+			s.MQ.OnWrite = nil
+			return
+		}
+		yield := int(st.D)
+		s.ev(Event{Dir: EV, What: fmt.Sprintf("EAGERPING yield=%d", yield)})
+		s.MQ.OnWrite = func(b []byte) {
+			if len(b) == 2 && b[0] == 0xc0 && b[1] == 0 {
+				s.eagerMu.Lock()
+				s.eagerAnswered++
+				s.eagerMu.Unlock()
+				s.BrokerSend(mqttref.Pkt{Type: mqttref.PINGRESP}, true)
+				for i := 0; i < yield; i++ {
+					runtime.Gosched()
+				}
+			}
+		}
+		return
 	case "mqunstall":
 		s.ev(Event{Dir: EV, What: "MQUNSTALL"})
 		s.MQ.SetStalled(false)
